@@ -59,7 +59,10 @@ def handle : Handler
         let (ok1, n1) := H1Spec.c01 s cfg.disableNorm cfg.preParse cfg.disableKeepalive (fun n => n > cfg.maxBody) o
         (ok1 && H1Spec.c03 o, (if ok1 then "" else "C01-view-mismatch ") ++ (if H1Spec.c03 o then "" else "C03-unclean-output ") ++ n1)
     let unm := evs.contains .unmodelled
-    pure { out := (if unm then impl else evTokens evs), spec := ok, specNote := note,
+    let cls := match note.splitOn " known:" with
+      | [_, c] => c
+      | _ => ""
+    pure { out := (if unm then impl else evTokens evs), spec := ok, specNote := note, cls := cls,
            tag := "serve:" ++ evTag evs ++ (if endK == "stall" then "S" else "E") ++ ":" ++ (if ok then note else "") }
   | ["redir", _m, _t, pfx], impl => do
     -- the redirect paths of the router (`redirectTrailingSlash`, `redirectFixedPath`) feed the peer-controlled
